@@ -50,7 +50,7 @@ func init() {
 	register(&Prop{ID: "C10", Run: c10Run,
 		Rule: "toks: every token list over {'/','~','0','1','a','b','é','𝄞'} incl. empty tokens with (#tokens + #runes) <= 5 (quick) / 7 (thorough), plus random longer lists over a wider rune pool (white space incl. NBSP and line breaks, syntax look-alikes, supplementary-plane characters, the boundary code points of the UTF-8 length classes, U+FFFD, NUL, a combining mark); " +
 			"str: every string over the same alphabet up to length 4/6 (valid or not), every RFC 6901 grammar string up to length 6/8, random longer ones; " +
-			"eval: generated documents (member names include '0','1','10','a/b','~','é') with pointers drawn from existing locations, their neighbours (other member, index one past / far past, canonical numerals of 10-65 digits around 2^31, 2^32, 2^63, 2^64, 2^65, 2^128, 10^19, 10^20 and 10^64), " +
+			"eval: generated documents (member names include '0','1','10','a/b','~','é' and index-group look-alikes: a name followed by a bracket holding non-ASCII decimal digits, a sign, a non-digit or nothing, or not closed / not at the end) with pointers drawn from existing locations, their neighbours (other member, index one past / far past, canonical numerals of 10-65 digits around 2^31, 2^32, 2^63, 2^64, 2^65, 2^128, 10^19, 10^20 and 10^64), " +
 			"non-existent ones and a malformed stream (non-numeric, negative, empty tokens against lists; tokens below leaves); evalhist: such a document is given a history of 1-6 in-place edits " +
 			"(AddValue / Remove / AddContainer / AddList / Set / MustSet / Append / Clear through nested builders, Lookup or the root's path API, consecutive edits differing in operation or route), and before every edit and at the end a fixed set of pointers " +
 			"(locations of every intermediate content and their neighbours) plus every location of the current content is evaluated; prop: dotted property paths with index groups through xform.PointerFromPropPathString. " +
@@ -207,6 +207,14 @@ func c10RandTok(r *rand.Rand) string {
 	}
 	return sb.String()
 }
+
+// c10BracketKeys: member names that LOOK like a name followed by an index group without being one (the excluded
+// class is exactly `[` ASCII digits `]` at the end, D26): the bracket holds decimal digits of other scripts
+// (Arabic-Indic, Devanagari, fullwidth, mathematical), a mix of those with ASCII digits, a sign, a non-digit, nothing,
+// or the group is not at the end / not closed.  "Walks object members by name": each of them is a plain name, also
+// when a sibling named like the part before the bracket is a list (the pool holds "a", "k1" and "0").
+var c10BracketKeys = []string{"a[\u0663]", "a[\uff11]", "k1[\u0967\u0968]", "a[1\u0660]", "a[\u06f0" + "0]", "0[\U0001d7ce]", "[\u0661]", "a[\u0660][0",
+	"a[x]", "a[]", "a[-1]", "a[+1]", "a[ 1]", "a[0]x", "a[0", "a]0[", "a[0]]"}
 
 func c10EvalGen() *DocGen {
 	g := stdGen()
@@ -392,6 +400,7 @@ func c10Run(c *Ctx) {
 	}
 	// --- evaluation
 	g := c10EvalGen()
+	g.Keys = append(g.Keys, c10BracketKeys...)
 	for i := 0; i < c.N(1200); i++ {
 		c.Tick()
 		doc := g.Doc(r)
@@ -401,6 +410,7 @@ func c10Run(c *Ctx) {
 	}
 	// --- evaluation against documents with a history
 	gh := c10EvalGen()
+	gh.Keys = append(gh.Keys, c10BracketKeys[:3]...) // (not path-safe names: a few, so the dotted-path routes keep their share)
 	gh.ListMax = 5
 	for i := 0; i < c.N(400); i++ {
 		c.Tick()
